@@ -487,8 +487,10 @@ Fixpoint poll_retained (g : cfg) (s : state) (cl ch : N) (l : list conn) : state
     | m :: q =>
       (upd_conn s cl (k_sv k) (fun k => k_set_chan k ch (mk_chan (c_state x) q (c_bor x ++ [m]) (c_comp x))), R1Some (k_sv k) m)
     | [] =>
-      (* receive returned None: the connection is removed if no channel has borrows *)
-      let s := if existsb (fun y => nonempty (c_bor y)) (k_ch k) then s else upd_conn s cl (k_sv k) (fun k => k_with_cv k VNone) in
+      (* receive returned None: the connection is removed if no channel has borrows AND no
+         channel has data (fix: 9915d96; before, the has_data result of the scan was ignored and
+         a response queued for a sibling PendingResponse was lost) *)
+      let s := if existsb chan_has_data_or_borrows (k_ch k) then s else upd_conn s cl (k_sv k) (fun k => k_with_cv k VNone) in
       poll_retained g s cl ch t
     end
   end.
